@@ -102,6 +102,9 @@ func New(t *simrt.Tape) *G { return &G{T: t, MaxBlob: 600, Alg: "sha256"} }
 
 func (g *G) c(n int, label string) int { return g.T.Choose("gen", n, label) }
 
+// Bytes returns n tape-derived bytes.
+func (g *G) Bytes(n int) []byte { return g.bytes(n) }
+
 func (g *G) bytes(n int) []byte {
 	g.n++
 	b := make([]byte, n)
